@@ -8,6 +8,7 @@ import (
 	"fmt"
 	"io"
 	"log"
+	"math"
 	"math/big"
 	"math/bits"
 	"sort"
@@ -1262,9 +1263,14 @@ func slice(x, lo, hi, step_ Value) (Value, error) {
 		var err error
 		step, err = AsInt32(step_)
 		if i, ok := step_.(Int); ok && err != nil {
-			// A stride beyond the int32 range selects at most one element,
-			// exactly like a stride of n+1.
-			step, err = (n+1)*i.Sign(), nil
+			if i64, ok := i.Int64(); ok && int64(int(i64)) == i64 && i64 != math.MinInt64 {
+				// (a range may be longer than 2^31 elements)
+				step, err = int(i64), nil
+			} else {
+				// A stride beyond the range of int selects at most one
+				// element, exactly like any stride longer than the sequence.
+				step, err = math.MaxInt*i.Sign(), nil
+			}
 		}
 		if err != nil {
 			return nil, fmt.Errorf("invalid slice step: %s", err)
@@ -1361,7 +1367,16 @@ func asIndex(v Value, len int, result *int) error {
 		i, err := AsInt32(v)
 		if err != nil {
 			if big, ok := v.(Int); ok {
-				// An index beyond the int32 range is clamped like any
+				if i64, ok := big.Int64(); ok && int64(int(i64)) == i64 && i64 != math.MinInt64 {
+					// (a range may be longer than 2^31 elements)
+					i = int(i64)
+					if i < 0 {
+						i += len
+					}
+					*result = i
+					return nil
+				}
+				// An index beyond the range of int is clamped like any
 				// other out-of-range index: callers truncate len to the
 				// end of the sequence and -1 to its start.
 				if big.Sign() > 0 {
